@@ -342,8 +342,9 @@ def malformed_cases(rng, n_cases):
             lens = [max(0, ln - rng.choice([1, 2])) for ln in lens]
         strs = [_rand_seq(rng, NUC, ln) for ln in lens]
         ops = [f"set {NUC} {_seqs(strs)} {_tr(cols)}"]
+        # distinguish_matches runs get_codes over *all* sequences; the model looks at the (reference, segment) pair only
         ops += rng.sample(["strings", "codes", "symbols", "termgaps", "rmterm", "rmgaps", "ident all", "pident all",
-                           "cigar_w 0 1 _ 0 0 0", "cigar_w 0 1 _ 1 0 1", "cigar_t 0 1 _ 0 1 1"], 4)
+                           "cigar_w 0 1 _ 0 0 0", "cigar_w 0 1 _ 1 0 1" if n == 2 else "cigar_w 0 1 _ 0 1 1", "cigar_t 0 1 _ 0 1 1"], 4)
         yield {"kind": "malformed/" + how, "ops": ops, "valid": False}
 
 
